@@ -234,8 +234,8 @@ def bounded_seq(which):
     rank = int(rng.integers(0, 3))
     nmodes = int(rng.integers(1, 7))
     shp = [(), (nmodes,), (nmodes, int(rng.integers(1, 5)))][rank] if rng.random() < 0.5 else [(), (5,), (3, 4)][rank]
-    r = rng.uniform(0.05, 0.95, shp)
-    t = rng.uniform(-3, 3, shp)
+    r = vary_layout(rng, rng.uniform(0.05, 0.95, shp))      # coordinates in any memory layout (contiguous, Fortran, strided)
+    t = vary_layout(rng, rng.uniform(-3, 3, shp))
     if which in ('zernike_nm_seq', 'zernike_nm_der_seq', 'Q2d_seq'):
         style = str(rng.choice(['random', 'all-m0-shuffled', 'same-absm', 'descending-n', 'with-duplicates']))
         nms = []
@@ -289,7 +289,7 @@ def bounded_seq(which):
         if rng.random() < 0.4:
             # the short and late-starting lists where the unrolled first orders return early or are skipped
             ns = [[0], [1], [2], [3], [0, 1], [1, 2], [0, 2], [0, 1, 2], [3, 5], [1, 4], [0, 1, 4], [int(rng.integers(0, 12))]][int(rng.integers(0, 12))]
-        x = rng.uniform(-0.95, 0.95, shp)
+        x = vary_layout(rng, rng.uniform(-0.95, 0.95, shp))
         if which == 'Qbfs_seq':
             seq = get('prysm.polynomials.qpoly.Qbfs_seq')(ns, np.abs(x))
             one = [get('prysm.polynomials.qpoly.Qbfs')(n, np.abs(x)) for n in ns]
